@@ -871,6 +871,127 @@ Proof.
   rewrite (abs_set_tl_tvar h j tl _ W A Ej). reflexivity.
 Qed.
 
+(* ---- constructor, clones, general slices ---- *)
+
+Lemma extend_locs_val h c ls cp f l' :
+  wf h -> locs_ok h ls -> l' < length (objs h) ->
+  val_of (fst (extend_locs h c ls cp f)) l' = val_of h l'.
+Proof.
+  revert h; induction ls as [|l ls IH]; intros h W H Hl; simpl; auto.
+  inversion H as [|? ? Hl0 Hls]; subst.
+  destruct (wf_append_loc h c l cp f W Hl0) as (W1 & Hle & _).
+  pose proof (append_loc_val h c l cp f l' W Hl) as X.
+  destruct (append_loc h c l cp f) as [h1 [|e]]; simpl in *; auto.
+  rewrite IH; auto; [|lia].
+  eapply Forall_lt_mono with (f := fun x => x); [|exact Hls]. exact Hle.
+Qed.
+
+Lemma construct_val h dt ls cp f l' :
+  wf h -> locs_ok h ls -> l' < length (objs h) ->
+  val_of (fst (construct h dt ls cp f)) l' = val_of h l'.
+Proof.
+  intros W H Hl. destruct (construct h dt ls cp f) as [h1 [|x]] eqn:E; simpl.
+  - rewrite (construct_ok _ _ _ _ _ _ E).
+    rewrite (extend_locs_val (push_em h (mkE dt [])) (length (ems h)) ls cp f l' (wf_push_em_empty h dt W) H Hl).
+    reflexivity.
+  - rewrite (construct_err _ _ _ _ _ _ _ E). reflexivity.
+Qed.
+
+Lemma refine_construct h dt ls f :
+  wf h -> locs_ok h ls ->
+  sp_construct (abs h) dt (abs_vals h ls) f
+  = (abs (fst (construct h dt ls true f)), snd (construct h dt ls true f)).
+Proof.
+  intros W H. unfold sp_construct, construct.
+  pose proof (refine_extend_locs (push_em h (mkE dt [])) (length (ems h)) ls f (wf_push_em_empty h dt W) H) as R.
+  rewrite abs_push_em in R. cbn [e_dtype e_mem] in R.
+  rewrite (abs_vals_tables h (push_em h (mkE dt [])) ls) in R by reflexivity.
+  change (abs_vals h []) with (@nil value) in R.
+  replace (length (s_ems (abs h))) with (length (ems h)) by (rewrite s_ems_abs, map_length; reflexivity).
+  rewrite R.
+  destruct (extend_locs (push_em h (mkE dt [])) (length (ems h)) ls true f) as [h1 [|x]]; reflexivity.
+Qed.
+
+Lemma refine_emctor h is dt f : wf h -> refines h (OEmCtor is dt true f).
+Proof.
+  intros W. unfold refines. simpl. unfold exec_emctor.
+  destruct (mapM (nth_error (hnd h)) is) as [ls|] eqn:E.
+  - rewrite (mapM_hnd_abs h is ls W E). pose proof (locs_ok_mapM_hnd _ _ _ W E) as Hls.
+    destruct dt as [i|]; [|apply refine_construct; auto].
+    rewrite abs_hnd_nth by auto. destruct (nth_error (hnd h) i) as [l|] eqn:Ei; simpl; auto.
+    destruct (val_of_ok h l W (wf_hnd_lt _ _ _ W Ei)) as [v Hv]. rewrite Hv. apply refine_construct; auto.
+  - rewrite (mapM_hnd_abs_none h is W E). reflexivity.
+Qed.
+
+Lemma refine_emclone h c : wf h -> refines h (OEmClone c).
+Proof.
+  intros W. unfold refines. simpl. unfold exec_emclone. rewrite abs_ems_nth.
+  destruct (nth_error (ems h) c) as [e|] eqn:Ee; simpl; auto.
+  apply refine_construct; auto. eapply wf_em; eauto.
+Qed.
+
+Lemma refine_sel h c idxs : wf h -> refines h (OSel c idxs).
+Proof.
+  intros W. unfold refines. simpl. unfold exec_sel, new_em_from. rewrite abs_ems_nth.
+  destruct (nth_error (ems h) c) as [e|] eqn:Ee; simpl; auto.
+  pose proof (abs_vals_vals h (e_mem e) W (wf_em _ _ _ W Ee)) as Hv.
+  unfold vals_of in *. rewrite (mapM_sel _ idxs _ _ Hv). simpl.
+  rewrite abs_new_em_vals by auto. reflexivity.
+Qed.
+
+Lemma refine_tcsel h t idxs : wf h -> refines h (OTcSel t idxs).
+Proof.
+  intros W. unfold refines. simpl. unfold exec_tcsel. rewrite abs_tcs_nth.
+  destruct (nth_error (tcs h) t) as [tc|] eqn:Et; simpl; auto.
+  rewrite (tc_times_ok h t tc W Et). rewrite s_ems_abs, mapM_nth_map.
+  destruct (mapM (nth_error (ems h)) (sel idxs (tc_ems tc))) as [es|] eqn:E; simpl; auto.
+  apply refine_build_tc; auto. eapply wf_mapM_ems; eauto.
+Qed.
+
+Lemma refine_trsel h k idxs : wf h -> refines h (OTrSel k idxs).
+Proof.
+  intros W. unfold refines. simpl. unfold exec_trsel. rewrite abs_trs_nth.
+  destruct (nth_error (trs h) k) as [tr|] eqn:Et; simpl; auto.
+  pose proof (abs_vals_vals h (tr_drops tr) W (wf_tr _ _ _ W Et)) as Hd.
+  unfold vals_of in *. rewrite (mapM_sel _ idxs _ _ Hd). rewrite (tr_times_ok h k tr W Et).
+  apply refine_build_tr; auto.
+Qed.
+
+Lemma refine_clone_ems h es :
+  wf h -> Forall (fun e => locs_ok h (e_mem e)) es ->
+  sp_clone_ems (abs h) (map (absE h) es) = (abs (fst (clone_ems h es)), snd (clone_ems h es)).
+Proof.
+  revert h; induction es as [|e es IH]; intros h W H; simpl; auto.
+  inversion H as [|? ? He Hes]; subst.
+  rewrite (refine_construct h (e_dtype e) (e_mem e) false W He).
+  pose proof (wf_construct h (e_dtype e) (e_mem e) true false W He) as W1.
+  pose proof (fun l' => construct_val h (e_dtype e) (e_mem e) true false l' W He) as V.
+  destruct (construct h (e_dtype e) (e_mem e) true false) as [h1 [|x]] eqn:E; simpl in *; auto.
+  destruct (construct_tables _ _ _ _ _ _ W He E) as (_ & _ & _ & _ & _ & _ & _ & _ & T9).
+  assert (Hes1 : Forall (fun e0 => locs_ok h1 (e_mem e0)) es).
+  { eapply Forall_impl; [|exact Hes]. intros a Ha.
+    eapply Forall_lt_mono with (f := fun x => x); [|exact Ha]. exact T9. }
+  rewrite <- (IH h1 W1 Hes1). f_equal.
+  apply map_ext_Forall with (P := fun e0 => locs_ok h (e_mem e0)); auto.
+  intros a Ha. unfold absE. f_equal. symmetry. apply abs_vals_ext. intros l Hl. apply V.
+  unfold locs_ok in Ha. rewrite Forall_forall in Ha. auto.
+Qed.
+
+Lemma refine_tcclone h t : wf h -> refines h (OTcClone t).
+Proof.
+  intros W. unfold refines. simpl. unfold exec_tcclone. rewrite abs_tcs_nth.
+  destruct (nth_error (tcs h) t) as [tc|] eqn:Et; simpl; auto.
+  rewrite (tc_times_ok h t tc W Et). rewrite s_ems_abs, mapM_nth_map.
+  destruct (mapM (nth_error (ems h)) (tc_ems tc)) as [es|] eqn:E; simpl; auto.
+  pose proof (wf_mapM_ems _ _ _ W E) as Hes.
+  rewrite (refine_clone_ems h es W Hes).
+  destruct (clone_ems_inv h es W Hes) as (W1 & _ & _ & _ & _ & _ & _ & T6 & _ & _ & _).
+  destruct (clone_ems h es) as [h1 [|x]]; simpl in *; auto.
+  rewrite abs_push_tc, abs_alloc_tl by auto. unfold tc_times at 2. cbn [tc_tl tc_ems].
+  rewrite <- T6. rewrite (tl_get_alloc_new h1 (alloc_tl h1 (tc_times h tc)) (tc_times h tc)) by reflexivity.
+  unfold new_cids. rewrite !map_length. reflexivity.
+Qed.
+
 (* ------------------------------------------------------------------------------------ *)
 (* the refinement theorem                                                                *)
 (* ------------------------------------------------------------------------------------ *)
@@ -911,6 +1032,12 @@ Proof.
   - apply refine_tlistnew; auto.
   - apply refine_tlistappend; auto.
   - apply refine_tlistset; auto.
+  - apply refine_emctor; auto.
+  - apply refine_emclone; auto.
+  - apply refine_sel; auto.
+  - apply refine_tcsel; auto.
+  - apply refine_trsel; auto.
+  - apply refine_tcclone; auto.
 Qed.
 
 (* over whole operation sequences, from the empty heap: same contents and same outcomes *)
